@@ -57,6 +57,14 @@ def get_leaf(style, key):
     return style.as_dict(flatten=True, separator="_")[key]
 
 
+def valid_pair(mk, key, v):
+    try:
+        mk().style.update(**{key: v})
+        return True
+    except Exception:  # noqa: BLE001
+        return False
+
+
 def sweep(ctx, n_leaves):
     import magpylib as magpy
     from magpylib._src.style import get_style
@@ -111,6 +119,39 @@ def sweep(ctx, n_leaves):
                         bad(f"style:{fam}:{key}:notations", "underscore / nested dict / attribute notations differ", {"family": fam, "leaf": key})
                     if get_leaf(get_style(o1, magpy.defaults), key) != v_obj:
                         bad(f"style:{fam}:{key}:object", "object style value not effective", {"family": fam, "leaf": key})
+                    # mixed notations in ONE call: a nested dictionary for a sibling leaf (same branch) plus the underscore keyword
+                    parts = key.split("_")
+                    sib = next((k2 for k2 in keys if k2 != key and k2.split("_")[:-1] == parts[:-1] and other_value(k2, dflat[k2], 1) is not None
+                                and valid_pair(mk, k2, other_value(k2, dflat[k2], 1))), None) if len(parts) >= 2 else None
+                    if sib is not None:
+                        v_sib = other_value(sib, dflat[sib], 1)
+                        given = nested(sib, v_sib)
+                        keep = copy.deepcopy(given)
+                        for how in ("update", "copy"):  # (get_style's own `style=` argument is internal: show() hands it a fresh dict)
+                            o5 = mk()
+                            try:
+                                if how == "update":
+                                    o5.style.update(given, **{key: v_obj})
+                                    st5 = o5.style
+                                elif how == "copy":
+                                    st5 = o5.copy(style=given, **{"style_" + key: v_obj}).style
+                                else:
+                                    st5 = get_style(o5, magpy.defaults, style=given, **{"style_" + key: v_obj})
+                            except Exception as e:  # noqa: BLE001
+                                bad(f"style:{fam}:mixed-notation:{how}", f"dictionary for {sib} plus keyword for {key} raised {type(e).__name__}", {"family": fam, "leaf": key, "sibling": sib})
+                                continue
+                            stats["mixed-notation"] = stats.get("mixed-notation", 0) + 1
+                            if get_leaf(st5, key) != v_obj or get_leaf(st5, sib) != v_sib:
+                                bad(f"style:{fam}:mixed-notation:{how}", f"dictionary for {sib} plus underscore keyword for {key} in one call: got {get_leaf(st5, sib)!r} / {get_leaf(st5, key)!r}",
+                                    {"family": fam, "leaf": key, "sibling": sib, "expected": [repr(v_sib), repr(v_obj)]})
+                            if given != keep:
+                                bad(f"style:{fam}:caller-dict-modified:{how}", "the style dictionary passed by the caller was modified", {"family": fam, "leaf": key, "sibling": sib, "dict_after": repr(given)})
+                                given = copy.deepcopy(keep)
+                        # the same leaf in both notations: the keyword (given last) wins
+                        o6 = mk()
+                        o6.style.update(nested(key, v_kw), **{key: v_obj})
+                        if get_leaf(o6.style, key) != v_obj:
+                            bad(f"style:{fam}:mixed-notation:conflict", f"the same leaf as dictionary ({v_kw!r}) and as keyword ({v_obj!r}) in one call: keyword does not win", {"family": fam, "leaf": key})
                     # last assignment wins
                     o1.style.update(**{key: v_kw})
                     if get_leaf(o1.style, key) != v_kw:
